@@ -39,7 +39,8 @@ type c16Case struct {
 	Ignore  []string          `json:"ignore_metrics,omitempty"`
 }
 
-var c16Metrics = []string{"m0", "m1", "m2", "m3"}
+// (M0 and M2 differ from m0 and m2 only in letter case: distinct metrics for Prometheus)
+var c16Metrics = []string{"m0", "m1", "m2", "m3", "M0", "M2"}
 
 func c16DB(classes map[string]string, now time.Time) *promfake.DB {
 	step := 5 * time.Minute
